@@ -14,6 +14,7 @@ Inside an item region everything is *the item's own tokens* except what is marke
     /*+*/ ... /*-*/                           inserted annotation (inline form)
     /*@Rnn: <original tokens> @*/ <replacement> /*@.*/    licensed rewrite (rule Rnn of vx/rules.md)
     /*@probe*/                                extra must-fail probe point (closure bodies)
+    /*@lprobe*/                               the same inside a proof fn of a hand-written lemma (vacuity of its requires)
 
 On every run the tool
   1. slices the item out of the current working tree of /repo (lexer + brace matching),
@@ -310,6 +311,10 @@ class Unit:
                 continue
             if self.probe and "/*@probe*/" in ln:
                 ln = ln.replace("/*@probe*/", " if vf_nondet() { assert(false); } /*@P*/ ")
+            if self.probe and "/*@lprobe*/" in ln:
+                # probe inside a proof fn (lemma): guarded by an uninterpreted spec predicate with a fresh index
+                self.n_lprobe = getattr(self, "n_lprobe", 0) + 1
+                ln = ln.replace("/*@lprobe*/", " if vf_nondet_s(%d) { assert(false); } /*@P*/ " % self.n_lprobe)
             self.lines.append(ln)
             i += 1
 
